@@ -183,6 +183,7 @@ func init() {
 
 // wave 9 (second held-out wave; additions made after the measurement)
 var addedRulesW9 = map[string]string{
+	"C02": " One forgery kind: the genuine cookie followed by a NUL and more text (x, .AAAA, =, the cookie again, another NUL and x, a blank).",
 	"C15": " 1 run in 12 configures a signing key of 1-31 characters (the instance may be unable to mint); a token for another subject encrypted under the right key without an inner signature must be refused.",
 	"C04": " A third of the tokens issued by a real download are used after a restart of the gateway with another setting of the verification switch (fault: restart); the switch as it is at use and the address recorded at issuance decide.",
 	"C12": " In signed mode two thirds of the good query tokens lapse within 30-60 s; after the first download time passes until the token is 65-180 s beyond its expiry and the same or another signed-in session presents it again: no file.",
